@@ -16,6 +16,12 @@ connection (n = 0, 1, ...) is treated according to plan[n]:
                              k bytes are passed on to the client, then the connection is closed
     ("S", 0)                 reply send failed: the daemon-side socket is shut down for reading before the full request
                              is forwarded, so that the daemon's m_msg_send fails (EPIPE) and it rolls back
+    ("H", k)                 reply cut in the MIDDLE on the daemon's side: the request is forwarded, k >= 1 bytes of the reply are
+                             taken from the daemon, then the daemon-side socket is closed while the daemon still has reply bytes
+                             to write (meaningful for replies larger than the socket send buffer: the daemon sits in poll() for
+                             buffer space and gets POLLHUP, or EPIPE from its next writev).  The k bytes are passed on to the
+                             client, then its connection is closed.  Returns only when the daemon has closed its end too
+                             (it does so after dec_process_msg, i.e. after the roll-back).
     ("C", 0)                 connection refused: before the n-th connection can be attempted the proxy stops listening (the
                              socket file stays), so connect() fails with ECONNREFUSED until the next set_plan()
 Connections beyond the plan are clean.  One connection at a time (libmunge is sequential)."""
@@ -217,6 +223,17 @@ class FaultProxy:
                 self.log.append(("S", len(req)))
                 return
             d.sendall(req)
+            if f and f[0] == "H":
+                part = _recv_n(d, max(1, f[1]))
+                time.sleep(0.03)        # the daemon has filled the socket buffer and waits in poll() for space
+                d.close()
+                idle = self._await_daemon_idle()
+                try:
+                    c.sendall(part)
+                except OSError:
+                    pass
+                self.log.append(("H", len(part), idle))
+                return
             rsp = _recv_msg(d)
             if f and f[0] == "L":
                 k = min(f[1], max(len(rsp) - 1, 0))
@@ -230,6 +247,21 @@ class FaultProxy:
                 d.close()
             except OSError:
                 pass
+
+    def _await_daemon_idle(self, limit=3.0):
+        """wait until munged holds no accepted connection any more (/proc/net/unix lists the listener and every accepted
+        socket under the bound path): whatever it does after a failed or successful send (roll-back, close) is done"""
+        t0 = time.time()
+        suffix = " " + self.daemon_path
+        while time.time() - t0 < limit:
+            try:
+                n = sum(1 for l in open("/proc/net/unix") if l.rstrip("\n").endswith(suffix))
+            except OSError:
+                return False
+            if n <= 1:
+                return True
+            time.sleep(0.005)
+        return False
 
     @staticmethod
     def _await_peer_close(d, limit=3.0):
